@@ -146,6 +146,14 @@ def impl_one(case):
         def before_eval(s, d, e): s.ev.append(f"B{d}@{s.sp(e)}")
         def after_eval(s, d, e, r): s.ev.append(f"A{d}@{s.sp(e)}#{0 if isinstance(r, BaseException) else KIND.get(type(r).__name__, 6)}")
     rec = Rec() if trace else None
+    files = case.get("files"); tmpd = None; oldcwd = None
+    if files is not None:          # module files: a fresh directory holding them becomes the working directory, the module registry starts empty
+        import tempfile
+        from pbhhg_py.builtins import module as MOD
+        base = os.path.join(ROOT, ".scratch"); os.makedirs(base, exist_ok=True); tmpd = tempfile.mkdtemp(prefix="imp_", dir=base)
+        for rel, content in files.items():
+            fp = os.path.join(tmpd, rel); os.makedirs(os.path.dirname(fp), exist_ok=True); open(fp, "wb").write(content)
+        oldcwd = os.getcwd(); os.chdir(tmpd); MOD._MODULE_REGISTRY.clear()
     src = "".join(l + "\n" for l in lines)
     if case.get("noeol") and src: src = src[:-1]          # the last line without its line feed: still one line
     old_in, old_out = sys.stdin, sys.stdout
@@ -169,6 +177,7 @@ def impl_one(case):
     finally:
         signal.setitimer(signal.ITIMER_REAL, 0); sys.stdout = old_out
         rest_txt = sys.stdin.read(); sys.stdin = old_in
+        if tmpd: os.chdir(oldcwd); shutil.rmtree(tmpd, ignore_errors=True)
     rest = (len(rest_txt.split("\n")) - 1 + (1 if rest_txt and not rest_txt.endswith("\n") else 0)) if src else 0
     return f"{res}\tOUT {','.join(str(ord(c)) for c in out.getvalue())}\tREST {rest}\tEV {' '.join(rec.ev) if rec else ''}"
 
@@ -189,6 +198,9 @@ def cps(s): return ",".join(str(ord(c)) for c in s)
 def model_line(case):
     lines = case.get("stdin", [])
     inp = "-" if not lines else "|".join(cps(x) for x in lines)
+    if case.get("files") is not None:          # run_main_fs on the disk holding the module files
+        dk = ";".join(cps(rel) + "=" + (".".join(str(b) for b in content) or "e") for rel, content in case["files"].items()) or "-"
+        return f"IM\t{dk}\t{inp}\t{cps(case['text'])}"
     return inp + "\tT " + cps(case["text"])
 def driver(name, lines, shards=NPROC, timeout=1800, tlimit=None):
     """run ocaml/<name> on the input lines (sharded over processes), keep order"""
